@@ -177,3 +177,21 @@ Example c04_ex_gs3 : forallb (fun seed => let s := fst (gen_s3 seed) in
     bytes_eqb (show_outcome show_gs3 (fst (gs3_query 7777 None (script_net (s3_script s)))))
               (show_outcome show_gs3 (Ok (s3_expected s)))) [1; 2; 3; 5; 8; 13] = true.
 Proof. vm_compute. reflexivity. Qed.
+
+(* the password flag of GameSpy 1 / 3 (and JC2-MP) replies: the word true / false in ANY capitalisation, or 0 / 1; the
+   variable is removed from the map; a reply without it is refused *)
+From GD Require Import Proofs.GamespyPassword.
+Theorem c04_password_flag : forall (m : vmap) v, vm_get (str "password") m = Some v ->
+  (lower_ascii v = str "true" -> has_password m = Ok (true, map_remove (str "password") m))
+  /\ (lower_ascii v = str "false" -> has_password m = Ok (false, map_remove (str "password") m))
+  /\ (v = str "0" -> has_password m = Ok (false, map_remove (str "password") m))
+  /\ (v = str "1" -> has_password m = Ok (true, map_remove (str "password") m)).
+Proof. exact has_password_words. Qed.
+Print Assumptions c04_password_flag.
+Theorem c04_password_absent : forall (m : vmap), vm_get (str "password") m = None -> has_password m = Err PacketBad.
+Proof. exact has_password_absent. Qed.
+Print Assumptions c04_password_absent.
+Example c04_password_capitalisations :
+  lower_ascii (str "True") = str "true" /\ lower_ascii (str "TRUE") = str "true" /\ lower_ascii (str "tRuE") = str "true"
+  /\ lower_ascii (str "False") = str "false" /\ lower_ascii (str "FALSE") = str "false".
+Proof. exact capitalisations. Qed.
